@@ -152,6 +152,24 @@ CHECKS = {
             'is compared with an explicit model (exact bytes / sandwich / fill + canaries / status / distinct ids + exactly-once '
             'start calls through the parent memory).',
             'thread-spawn schedules are real-thread samples + TSan, not harness-owned.', 'DESIGN.md section 7 C15'),
+    'C16': ('F1 end-to-end histories + generated pthread stress harness (gcc/clang/TSan builds)',
+            'model-based PBT of sequential atomic histories (all 63 atomic flavours, byte-array model after every call) plus '
+            'concurrent stress with total-order consistency oracles on the returned old values (add/sub/xchg/cmpxchg loops/'
+            'or/and/xor) and ThreadSanitizer',
+            'Sequential semantics are decided against the reference model step by step; atomicity is attacked by 2-8 threads on '
+            'child instances of one shared memory with oracles that any lost update or torn/duplicated old value violates, under '
+            'gcc, clang and a TSan build that must stay silent.',
+            'Atomicity is sampled (stress + TSan), not enumerated: the operations are single locked instructions on this host.',
+            'DESIGN.md section 7 C16'),
+    'C19': ('F1 end-to-end histories under forced WASM_ENDIAN + big-endian-configured translator build',
+            'metamorphic/model-based PBT: the same memory and atomic histories are built with WASM_ENDIAN forced to 0 and to 1; the '
+            'byte-array model takes the byte order as a parameter and must match after every call; translator variant built with '
+            'WASM_ENDIAN=1 must emit byte-reversed float immediates',
+            'Every multi-byte load/store/atomic/RMW flavour is driven through generated histories in both forced configurations '
+            'and compared byte for byte (CRC + dumps + results) with the model of that configuration, which is exactly the '
+            '"one reversal of exactly that width" relation; 8-bit accesses and bulk copies must be identical.',
+            'No big-endian host/emulator exists here: the property is decided in the forced-configuration frame it names.',
+            'DESIGN.md section 7 C19'),
 }
 
 NOT_YET = {}
